@@ -64,7 +64,7 @@ func nativeReplay(dir string, files []string, validate ...string) (map[string]st
 	cmd := exec.Command("go", args...)
 	cmd.Dir = repoDir
 	cmd.Env = append(os.Environ(), "GOFLAGS=-mod=mod", "GOPROXY=off", "GOSUMDB=off", "GOTOOLCHAIN=local",
-		"VP_REPLAY="+strings.Join(files, ":"), "VP_VALIDATE="+strings.Join(validate, ","), "GOCACHE="+goCacheDir())
+		"VP_REPLAY="+strings.Join(files, ":"), "VP_VALIDATE="+strings.Join(validate, ","), "VP_TIER="+currentTier, "GOCACHE="+goCacheDir())
 	var buf bytes.Buffer
 	cmd.Stdout = &buf
 	cmd.Stderr = &buf
@@ -124,3 +124,5 @@ func reproduces(f *ReplayFile, outcome string) bool {
 	}
 	return false
 }
+
+var currentTier = "quick"
